@@ -130,6 +130,7 @@ def run_history(history):
     programs_seen = []
     prev_kind = None
     hits0 = seams.cache_hits()
+    last_sid = None
     for op in history["ops"]:
         plog = []
         for p in op.get("pre", []):
@@ -159,8 +160,11 @@ def run_history(history):
                     fired[p["kind"]] = fired.get(p["kind"], 0) + 1
 
             kw["between"] = hook
-        res = run_step(sess, op["step"], cap, **kw)
+        scrambled = any(p["kind"] == "settings_scramble" for p in op.get("pre", []))
+        res = run_step(sess, op["step"], cap, apply=(last_sid != op["sid"] or scrambled), **kw)
+        last_sid = op["sid"]
         res["plog"] = plog
+        res["settings_as_owned"] = _owned(sess)
         results.append(res)
         if op["step"] in ("parse", "file:0", "main"):
             programs_seen.append(sess.spec.get("pid", op["sid"]))
@@ -173,6 +177,13 @@ def run_history(history):
             "cache_hits": seams.cache_hits() - hits0, "counter_end": seams.counter_get(), "hashseed": os.environ.get("PYTHONHASHSEED")}
 
 
+def _owned(sess):
+    """do the global options still equal the vector of the session that just ran? (cause hint only)"""
+    full = dict(seams.OPTION_DEFAULTS)
+    full.update(sess.spec.get("options") or {})
+    return seams.read_options() == full
+
+
 def run_unit(unit):
     """a reference unit: one session spec executed alone, all steps in order, no perturbation"""
     import random as _random
@@ -182,8 +193,8 @@ def run_unit(unit):
     np.random.seed(0)
     sess = make_session(unit["spec"])
     out = {}
-    for name in sess.step_names():
-        out[name] = run_step(sess, name, unit.get("step_cap", 60))
+    for i, name in enumerate(sess.step_names()):
+        out[name] = run_step(sess, name, unit.get("step_cap", 60), apply=(i == 0))
         if out[name]["status"] == "timeout":
             break
     return {"status": "done", "steps": out, "hashseed": os.environ.get("PYTHONHASHSEED")}
